@@ -71,7 +71,7 @@ def run_item(item, job, interner, classes, workdir):
         with contextlib.redirect_stdout(out), contextlib.redirect_stderr(err):
             cla = parse_args(["-f", tmp] + list(item.get("args", [])))
             oConfig = config.New(cla)
-            rounds = int(job.get("rounds", 1)) if item.get("tag", "default") == "default" else 1
+            rounds = int(item["rounds"]) if item.get("rounds") else (int(job.get("rounds", 1)) if item.get("tag", "default") == "default" else 1)
             res = None
             with open(tmp, encoding="utf-8", errors="replace", newline="") as f:
                 last_text = f.read()
